@@ -277,6 +277,36 @@ class Cut:
         return t
 
 
+def stmt_end(text, j):
+    """index just after the C statement starting at text[j] (block, if/else, loops, or simple statement)"""
+    while text[j].isspace():
+        j += 1
+    if text[j] == '{':
+        return match_close(text, j)
+    m = re.match(r'(if|while|for|switch)\b', text[j:])
+    if m:
+        p = find_code(text, '(', j)
+        e = stmt_end(text, match_close(text, p, '(', ')'))
+        if m.group(1) == 'if':
+            m2 = re.match(r'\s*else\b', text[e:])
+            if m2:
+                e = stmt_end(text, e + m2.end())
+        return e
+    if re.match(r'do\b', text[j:]):
+        e = stmt_end(text, j + 2)
+        p = find_code(text, '(', e)
+        return find_code(text, ';', match_close(text, p, '(', ')')) + 1
+    k = j
+    depth = 0
+    while not (text[k] == ';' and depth == 0):
+        if text[k] in '({':
+            depth += 1
+        elif text[k] in ')}':
+            depth -= 1
+        k += 1
+    return k + 1
+
+
 def inject_loop_contract(text, anchor, nth, contract, what, ptr_anchors=()):
     """Insert a CBMC loop contract after the header of the nth loop matching `anchor`.
 
@@ -317,16 +347,7 @@ def inject_loop_contract(text, anchor, nth, contract, what, ptr_anchors=()):
         if text[j] == '{':
             text = text[:j + 1] + ghost + text[j + 1:]
         else:
-            if re.match(r'(if|for|while|do|switch)\b', text[j:]):
-                raise Undecided('cannot anchor pointers in compound single-statement loop body in %s' % what)
-            k = j
-            depth = 0
-            while not (text[k] == ';' and depth == 0):
-                if text[k] in '({':
-                    depth += 1
-                elif text[k] in ')}':
-                    depth -= 1
-                k += 1
+            k = stmt_end(text, j) - 1
             text = text[:j] + '{' + ghost + ' ' + text[j:k + 1] + '}' + text[k + 1:]
     return text[:pe] + '\n' + contract + '\n' + text[pe:]
 
